@@ -138,13 +138,15 @@ impl MoveGen {
 
     /// Never, ever, iterate this move
     pub fn remove_move(&mut self, chess_move: ChessMove) -> bool {
+        // a pawn can own two entries (its ordinary moves and an en-passant capture)
+        let mut found = false;
         for x in 0..self.moves.len() {
             if self.moves[x].square == chess_move.get_source() {
                 self.moves[x].bitboard &= !BitBoard::from_square(chess_move.get_dest());
-                return true;
+                found = true;
             }
         }
-        false
+        found
     }
 
     /// For now, Only iterate moves that land on the following squares
